@@ -370,15 +370,23 @@ pub fn process_weak_refs(
 }
 
 pub fn forward_weak_refs(
-    _worker: &mut mmtk::scheduler::GCWorker<VerifVM>,
-    _tracer_context: impl ObjectTracerContext<VerifVM>,
+    worker: &mut mmtk::scheduler::GCWorker<VerifVM>,
+    tracer_context: impl ObjectTracerContext<VerifVM>,
 ) {
     ev(Kind::VmForwardWeak, 0, 0);
     let mut tab = EPH.lock().unwrap();
-    for e in tab.iter_mut() {
-        e.key = fwd(e.key);
-        e.val = fwd(e.val);
+    if tab.is_empty() {
+        return;
     }
+    // The forwarding trace must *reach* everything the weak table kept alive (mark-compact updates
+    // the fields of an object only when the second trace visits it), so keys and values go through
+    // the tracer, which also returns their new addresses.
+    tracer_context.with_tracer(worker, |tracer| {
+        for e in tab.iter_mut() {
+            e.key = tracer.trace_object(to_ref(e.key)).to_raw_address().as_usize();
+            e.val = tracer.trace_object(to_ref(e.val)).to_raw_address().as_usize();
+        }
+    });
 }
 
 pub fn enqueue_references(references: &[ObjectReference]) {
